@@ -54,9 +54,14 @@ TRUSTED = [
     'not proved equivalent to the regexes',
     'Python str.split/splitlines/lower and the regex class \\s are modelled on '
     'ASCII only',
-    'everything after Card.content()/split and the option tokens: geometry '
-    'parser, float(), expand_data_card (nR nI nM nJ), normalize_float are NOT '
-    'modelled here; their formatting invariance is checked by the sweep only',
+    'linked, not re-modelled: the cell parser after cellcard.split (C15\'s '
+    'model, environment universally quantified), normalize_float (C09\'s '
+    'model), the reader of surface cards incl. what to_float VALUE a token has '
+    '(C02\'s model); their own ties are those properties\' trusted base',
+    'not modelled and not linked (rewrite sweep only): the geometry parser, '
+    'the VALUES of data-card entries (the shorthand model is generic in the '
+    'numbers, tied at exact rationals on integer tokens), the LOG shorthand, '
+    'everything after parsing, the written file',
     'fingerprints (polynomial hashes mod 2^31-1 on both sides) stand for '
     'equality of the enumerated outputs',
     'harness: deck generator, layout renderer, impl.T4File reader, PEG shim '
@@ -73,7 +78,10 @@ ASSUMPTIONS = [
     'a line is not a lone "c"/"C"; a card starts with fewer than 5 blank '
     'columns on a line not preceded by an "&" continuation; title and block '
     'lines are non-blank and hold no \\r/\\n; before the options no blank or ")" '
-    'is directly followed by a letter or "*" (opt_free)',
+    'is directly followed by a letter or "*" (opt_free); option strings neither '
+    'start nor end with a colon (owf) in the linked statements',
+    'to_float model: tokens over [0-9 . + - e E d D] (no inf, nan, '
+    'underscores, blanks)',
     'only get_cards(skipcomments=True) is modelled (the only mode the '
     'converter uses)',
 ]
